@@ -1,6 +1,7 @@
 import EaselModel.Core.Proto
 import EaselModel.Gencode.Model
 import EaselModel.Gencode.Translate
+import EaselModel.Gencode.History
 import EaselModel.Generated.Gencode
 /-! Line-protocol driver for the C17 model (same ops as harness/h_gencode.c). -/
 open EaselModel EaselModel.Proto EaselModel.Alphabet EaselModel.Gencode
@@ -86,6 +87,24 @@ def xlate (NT : Alphabet) (ws : List String) : String :=
       if asText then s!"ok w={b wc.doWatson} c={b wc.doCrick} u={b wc.usingInit} l={wc.minlen} f=1 text={if acc.isEmpty then "-" else acc}"
       else s!"ok w={b wc.doWatson} c={b wc.doCrick} u={b wc.usingInit} l={wc.minlen} f=1 n={w.c.out.length}" ++ acc
 
+/-- `hist`: a history of calls on one object -/
+def hist (NT : Alphabet) (ws : List String) : String :=
+  let tabs := EaselModel.Generated.Gencode.tables
+  match setTable tabs 1 with
+  | none => "bad-op"
+  | some g0 =>
+    let toks := ((arg? ws "ops").getD "").splitOn "," |>.filter (· ≠ "")
+    let ops : List (HOp × String) := toks.map fun t =>
+      if t.startsWith "s" then (HOp.set (((t.drop 1).toString).toInt?.getD 0), "enotfound")
+      else if t == "a" then (HOp.any, "ok")
+      else if t == "u" then (HOp.aug, "ok")
+      else (HOp.read (argBytes ws t), "eformat")
+    let (_, out) := ops.foldl (fun (acc : Gencode × String) (p : HOp × String) =>
+      let r := hstep NT AA tabs acc.1 p.1
+      let g := r.1
+      (g, acc.2 ++ s!" {if r.2 then "ok" else p.2}:{g.translTable}:{hx (strBytes g.desc)}:{hx g.basic}:{hx g.isInit}")) (g0, "ok")
+    out
+
 def step (s : Unit) (line : String) : Unit × String :=
   let ws := words line
   match ws with
@@ -102,6 +121,7 @@ def step (s : Unit) (line : String) : Unit × String :=
   else if op == "alttable" then
     (s, s!"ok {hx (strBytes (dumpAltCodeTable EaselModel.Generated.Gencode.tables))}")
   else if op == "xlate" then (s, xlate NT ws)
+  else if op == "hist" then (s, hist NT ws)
   else if op == "read" || op == "readm" then
     match setTable EaselModel.Generated.Gencode.tables 1 with
     | none => (s, "bad-op")
